@@ -37,7 +37,7 @@ SchemaOf(t) == [i \in 1..Len(t.comps) |-> FieldOf(t.comps[i].t, i, "one", FALSE)
 
 \* occurrences of one present value x of type t
 Occ(t, x) ==
-  CASE t.k = "int"  -> <<BOfInt(x)>>
+  CASE t.k = "int"  -> IF "big" \in DOMAIN t THEN <<x>> ELSE <<BOfInt(x)>>     \* (X691!TIntB: the value is a number of Big.tla already)
     [] t.k = "bool" -> <<IF x THEN BOfInt(1) ELSE BZero>>
     [] t.k = "enum" -> <<BOfInt(x)>>
     [] t.k = "str"  -> <<Utf8(x)>>
